@@ -181,7 +181,11 @@ def _mk_trace_reducer(cls, nearest, scaled):
             red = new_reducer(c, RT, cls, dt, tc, A, scale, crit, duration=dur, inplace=inplace)
         else:
             target = c.real("target")
-            red = new_reducer(c, RT, cls, dt, tc, A, target, None, duration=dur, inplace=inplace)
+            # matching is exact, or within a configured tolerance of the target
+            tol = c.real("tolerance") if c.choice("tolerance", ["none", "value"]) == "value" else None
+            if tol is not None:
+                c.require(tol > 0)
+            red = new_reducer(c, RT, cls, dt, tc, A, target, tol, duration=dur, inplace=inplace)
         c.ensure("decay_is_exp", num(c.getattr(red, "decay")) == f_exp(-dt.z / tc.z))
         first = c.choice("observation", ["subsequent", "first_after_clear_keepshape"])
         install_storage(c, red, N, ptr, initial=(first != "subsequent"))
@@ -193,7 +197,8 @@ def _mk_trace_reducer(cls, nearest, scaled):
         if scaled:
             m, inc = mf(obs.f), scale.z * obs.f + A.z
         else:
-            m, inc = obs.f == target.z, A.z
+            d_ = obs.f - target.z
+            m, inc = (obs.f == target.z) if tol is None else (z3.If(d_ >= 0, d_, -d_) <= tol.z), A.z
         prev = rv.M0(1)
         if first != "subsequent":
             exp = z3.If(m, inc, 0)
@@ -513,6 +518,7 @@ ASSUMPTIONS = [
 ]
 
 MUTANTS = [
+    dict(file=RT, func="CumulativeTraceReducer.fold", old="            tolerance=self.tolerance,\n", new="", contracts=["CumulativeTraceReducer.forward"], name="seed C07f: the configured matching tolerance is not handed to the trace kernel"),
     dict(file=RT, func="ConditionalCumulativeTraceReducer.fold", old="matchfn=partial(lambda o, c: c, c=cond),", new="matchfn=partial(lambda o, c: ~c, c=cond),", contracts=["ConditionalCumulativeTraceReducer.forward"], name="conditional trace updated where the condition does NOT hold"),
     dict(file=T3F, func="EligibilityTraceReducer.__init__", old="        self.scale = 1 / self.time_constant", new="        self.scale = 1.0", contracts=["EligibilityTraceReducer.forward"], name="eligibility increment not scaled by 1/tau_z"),
     dict(file=T3F, func="EligibilityTraceReducer.dt@setter", old="        self.decay = math.exp(-self.dt / self.time_constant)", new="        pass", contracts=["EligibilityTraceReducer.forward"], name="eligibility decay not recomputed on dt change"),
